@@ -155,16 +155,45 @@ EXPRS = [
     '1+2*3', '(1+2)*3', '2-3-4', '8/4/2', '-2^2', '2^3^2/100', '-(1+1)',
     '1 - -1', 'pi*0.25+0.1', '2*(pi-1)/(3+1)', 'sqrt(pi)/cos(0.2)',
     '-sin(-0.4)', '3', '0', '1e-3', '.5', '2.', 'exp(-0.3)*2',
+    '-pi/2+0.3', '-1-2', '2*-3+1', '(-2+3)', '-2*3-4/2+1',
 ]
 
 
+def rand_expr(rng: random.Random, atoms: list[str], depth: int) -> str:
+    """A random expression of the OpenQASM 2 grammar, printed without any
+    parenthesis the grammar does not need: unary minus in front of sums and
+    products, chains of equal-precedence operators, powers."""
+    if depth == 0 or rng.random() < 0.25:
+        return rng.choice(atoms)
+    k = rng.random()
+    if k < 0.22:
+        return '-' + rand_expr(rng, atoms, depth - 1)
+    if k < 0.32:
+        return '(' + rand_expr(rng, atoms, depth - 1) + ')'
+    if k < 0.40:
+        return '%s(%s)' % (rng.choice(['sin', 'cos', 'exp', 'sqrt']),
+                           rng.choice(['0.5', 'pi/8', '0.3+0.1', '2']))
+    if k < 0.48:
+        return rand_expr(rng, atoms, depth - 1) + '^' + rng.choice(['2', '3'])
+    op = rng.choice(['+', '-', '*', '/', '+', '-'])
+    left = rand_expr(rng, atoms, depth - 1)
+    right = rand_expr(rng, atoms, depth - 1)
+    sep = ' ' if right.startswith('-') else ''
+    return left + op + sep + right
+
+
 def gen_expr(rng: random.Random, formals: list[str]) -> str:
+    if rng.random() < 0.4:
+        atoms = ['pi', '0.3', '2', '1.5', '0.25', '3'] + formals * 3
+        return rand_expr(rng, atoms, 3)
     if formals and rng.random() < 0.6:
         f = rng.choice(formals)
         return rng.choice([
             f, '-%s' % f, '%s/2' % f, '2*%s' % f, '%s+pi/2' % f,
             '%s*%s' % (f, rng.choice(formals)), 'sin(%s)' % f,
             '(%s-0.25)*2' % f, '%s^2' % f, '-%s^2' % f,
+            '-%s+0.3' % f, '-%s-%s' % (f, rng.choice(formals)),
+            '2*-%s+%s' % (f, rng.choice(formals)),
         ])
     return rng.choice(EXPRS)
 
@@ -472,7 +501,9 @@ def run(repo: str, tier: str, seed: int, jobs: int) -> dict:
         'OPENQASM2Language.decode vs qiskit.qasm2.loads':
             '%d generated programs (1-3 registers in shuffled declaration '
             'order, qelib1 gates, 0-2 custom gates with formal parameters in '
-            'expressions and nesting, %d expression shapes, barriers, final '
+            'expressions and nesting, %d fixed expression shapes plus random '
+            'expressions of the grammar (unary minus in front of sums and '
+            'products, operator chains, powers, functions), barriers, final '
             'measurements; seed %d)' % (n_prog * jobs, len(EXPRS), seed),
     }
     results = []
